@@ -201,6 +201,8 @@ pub struct LedgerOracle {
     last_sol_bytes: Option<Vec<u8>>,
     last_unsol_bytes: Option<Vec<u8>>,
     unconfirmed_event_response: bool,
+    /// (the step being judged, before it was cut into parts, contains a release)
+    whole_step_has_end_confirm: bool,
     nontrivial: bool,
     fp: u64,
     counters: BTreeMap<String, u64>,
@@ -217,6 +219,7 @@ impl LedgerOracle {
             last_sol_bytes: None,
             last_unsol_bytes: None,
             unconfirmed_event_response: false,
+            whole_step_has_end_confirm: false,
             nontrivial: false,
             fp: 0,
             counters: BTreeMap::new(),
@@ -566,6 +569,40 @@ impl LedgerOracle {
                             step.op_index, classes, types, want_c, want_t
                         ),
                     ));
+                        }
+                    }
+                }
+                // the outstation took the confirmation (it says so itself) of a response that carried events, and released nothing
+                // at all: "only then is it released ... and the application told so"
+                if groups.is_empty() && !self.whole_step_has_end_confirm {
+                    let accepted: Option<(bool, u8)> = step.callbacks.iter().find_map(|(_, cb)| match cb {
+                        Cb::Info(s) if s.starts_with("unsolicited_confirmed ") => {
+                            s.split_whitespace().nth(1).and_then(|x| x.parse::<u8>().ok()).map(|q| (true, q))
+                        }
+                        Cb::Info(s) if s.starts_with("solicited_confirm_received ") => {
+                            s.split_whitespace().nth(1).and_then(|x| x.parse::<u8>().ok()).map(|q| (false, q))
+                        }
+                        _ => None,
+                    });
+                    if let (Some((uns, q)), true) = (accepted, carrier_known && sent_confirm.is_some()) {
+                        let carrier = if uns { self.unsol.as_ref() } else { self.sol.as_ref() };
+                        if let Some(c) = carrier {
+                            let still_live: Vec<u64> = c
+                                .ids
+                                .iter()
+                                .copied()
+                                .filter(|id| self.ledger.events.get(id).map(|e| e.state == EvState::Live).unwrap_or(false))
+                                .collect();
+                            if c.seq == q && sent_confirm == Some((uns, q)) && !still_live.is_empty() {
+                                return Some(Violation::new(
+                                    "C03/iii confirmed-events-not-released",
+                                    if uns { "unsolicited no-release-at-all" } else { "solicited no-release-at-all" },
+                                    format!(
+                                        "step {}: the outstation accepted the confirmation of response seq {} which carried the events {:?}, but no begin_confirm/event_cleared/end_confirm followed",
+                                        step.op_index, q, still_live
+                                    ),
+                                ));
+                            }
                         }
                     }
                 }
@@ -994,6 +1031,7 @@ impl LedgerOracle {
 impl Oracle for LedgerOracle {
     fn step(&mut self, world: &World, step: &Step) -> Option<Violation> {
         // transactions injected at lock points in the middle of a step: judge what came before them first
+        self.whole_step_has_end_confirm = step.callbacks.iter().any(|(_, cb)| matches!(cb, Cb::EndConfirm { .. }));
         for sub in sout::split_at_lock_updates(step) {
             if let Some(v) = self.step_in_order(world, &sub) {
                 return Some(v);
